@@ -13,7 +13,9 @@ FUNCTIONS = [_T + f for f in (
     'Type.__init__', 'SimpleClassifier.__init__', 'TypeParameter.__init__', 'WildCardType.__init__',
     'TypeConstructor.__init__', 'ParameterizedType.__init__',
     '_get_type_substitution', 'substitute_type_args', 'substitute_type', 'perform_type_substitution',
-    'TypeConstructor.new')]
+    'TypeConstructor.new', 'ParameterizedType.to_variance_free',
+    'AbstractType.has_type_variables', 'Builtin.has_type_variables', 'SimpleClassifier.has_type_variables',
+    'WildCardType.has_type_variables', 'ParameterizedType.has_type_variables')]
 TRUSTED = [
     'copy.deepcopy returns a fresh object of the same class with the same name and as many supertypes / type parameters, '
     'and modifies no object that existed before the call; copy() of a list is a value copy',
